@@ -90,3 +90,14 @@ def model_classes(spec, m=None):
     if m is not None and not oracle.solver_safe(m):
         cl.append("not_solver_safe")
     return cl
+
+
+def ambiguous_prio(c):
+    """True when some id is carried by several objects that disagree on their ``prio`` tag (e.g. the complement group
+    Any(b,c) of a defaulted Any and a plain rule Any(b,c) get the same generated id). default_prios then depends on which
+    object a set happens to keep - the configurator itself is ambiguous, so it is outside the domain of C14/C16/C18."""
+    tags = {}
+    for x in oracle.walk(c):
+        if not oracle.is_leaf(x):
+            tags.setdefault(x.id, set()).add(getattr(x, "prio", None))
+    return any(len(v) > 1 for v in tags.values())
